@@ -181,6 +181,8 @@ def cases_for(spec, tier):
         # quick bound for the (30 ms) folder-backed run: second function consumes only `a`; thorough: every pipeline
         if len(spec["funcs"][1]["params"]) == 1:
             yield {"spec": spec, "form": "ndarray", "storage": "file_array", "folder": True}
+            # a per-output mix of an in-memory and a file-based storage WITHOUT a run folder (a temporary one is needed)
+            yield {"spec": spec, "form": "list", "storage": {",".join(spec["funcs"][0]["outs"]): "file_array", "": "dict"}}
         pass
 
 
